@@ -246,6 +246,66 @@ func checkMeshSDF(r *ev.Run, nm cat.Named3, n int) {
 	}
 }
 
+// checkSingleTriangles: every ordered vertex triple of a 3x3x2 integer grid
+// (so every triangle shape the grid offers - acute, right, obtuse, needle - in
+// all six vertex orders) as a one-face mesh: |SDF| must be the distance to
+// that triangle and the reported nearest point must lie on it at that
+// distance. A wrong answer of the per-triangle nearest-point routine cannot
+// be masked by a neighbouring face here.
+func checkSingleTriangles(r *ev.Run, n int) {
+	var grid []model3d.Coord3D
+	for x := 0; x < 3; x++ {
+		for y := 0; y < 3; y++ {
+			for z := 0; z < 2; z++ {
+				grid = append(grid, model3d.XYZ(float64(x), float64(y), float64(z)))
+			}
+		}
+	}
+	var qs []model3d.Coord3D
+	for i := 0; i < n; i++ {
+		for j := 0; j < n; j++ {
+			for k := 0; k < n; k++ {
+				f := func(t int, lo, hi float64) float64 { return lo + (hi-lo)*float64(t)/float64(n-1) }
+				qs = append(qs, model3d.XYZ(f(i, -1.3, 3.4)+0.0123, f(j, -1.4, 3.3)-0.0077, f(k, -1.2, 2.3)+0.0191))
+			}
+		}
+	}
+	type tri struct{ a, b, c int }
+	var ts []tri
+	for a := range grid {
+		for b := range grid {
+			for c := range grid {
+				if a != b && b != c && a != c && grid[b].Sub(grid[a]).Cross(grid[c].Sub(grid[a])).Norm() > 0 {
+					ts = append(ts, tri{a, b, c})
+				}
+			}
+		}
+	}
+	ev.Parallel(len(ts), 16, func(i int) {
+		t := [3]model3d.Coord3D{grid[ts[i].a], grid[ts[i].b], grid[ts[i].c]}
+		m := model3d.NewMesh()
+		m.Add(&model3d.Triangle{t[0], t[1], t[2]})
+		sdf := model3d.MeshToSDF(m)
+		name := fmt.Sprintf("MeshToSDF(single triangle %v %v %v)", t[0], t[1], t[2])
+		for _, p := range qs {
+			r.Eval(1)
+			want, _ := triDist(p, t)
+			c := sdfCase{name, []float64{p.X, p.Y, p.Z}, "SDF"}
+			q, got := sdf.PointSDF(p)
+			if math.Abs(math.Abs(got)-want) > 1e-9 {
+				r.Violation("MeshToSDF/single-triangle-distance", fmt.Sprintf("%s at %v: |SDF|=%.12g, distance to the triangle %.12g", name, p, math.Abs(got), want), c)
+				break
+			}
+			if fd, _ := triDist(q, t); fd > 1e-9 || math.Abs(q.Dist(p)-want) > 1e-9 {
+				r.Violation("MeshToSDF/single-triangle-point", fmt.Sprintf("%s at %v: nearest point %v is %g off the triangle and %g from the query (true distance %g)", name, p, q, fd, q.Dist(p), want), c)
+				break
+			}
+		}
+		r.NontrivialAdd(1)
+	})
+	r.Set("single_triangle_meshes", len(ts))
+}
+
 // ---- 2D ----
 
 type sdfObj2 interface {
@@ -418,7 +478,7 @@ func main() {
 		r.Sample(c)
 		r.Finish()
 	}
-	r.Rule(fmt.Sprintf("full product of the primitive parameter alphabets (2 centres x 2 radii x 2 lengths x %d axis directions incl. near-degenerate ones; 2D circle/rect/capsule/triangle) with a %d^3 (2D: %d^2) point lattice over twice the shape's extent plus centres, symmetry axes and rim/apex neighbourhoods; mesh SDFs of the catalogue against brute force over triangles and winding numbers; profile SDFs against the extruded 2D reference. "+
+	r.Rule(fmt.Sprintf("full product of the primitive parameter alphabets (2 centres x 2 radii x 2 lengths x %d axis directions incl. near-degenerate ones; 2D circle/rect/capsule/triangle) with a %d^3 (2D: %d^2) point lattice over twice the shape's extent plus centres, symmetry axes and rim/apex neighbourhoods; mesh SDFs of the catalogue (every face in each vertex rotation) against brute force over triangles and winding numbers; one-face meshes of every ordered vertex triple of a 3x3x2 grid against the point-triangle distance; profile SDFs against the extruded 2D reference. "+
 		"non-trivial = query points at which the reference surface is smooth so that the normal direction is judged (others are counted as skipped), and every mesh/profile query", len(ref.Axes), n, 2*n))
 	r.Assume("tolerance 1e-9 x scale on distances, 2e-3 on unit normals; normals are judged only where the reference field is smooth at the nearest boundary point (consistent central-difference gradients at two scales)")
 	shapes := ref.Shapes3(true)
@@ -431,8 +491,19 @@ func main() {
 		ev.Parallel(len(s2), 16, func(i int) { checkShape2(r, s2[i], 2*n) })
 	})
 	r.Isolate("meshes", func() {
-		ms := cat.Closed3(false)
+		var ms []cat.Named3
+		for _, nm := range cat.Closed3(false) {
+			// every face in each of its three vertex rotations (same orientation)
+			for rot := 0; rot < 3; rot++ {
+				v := cat.Named3{Name: fmt.Sprintf("%s/rot%d", nm.Name, rot), Genus: nm.Genus, Comps: nm.Comps}
+				for _, t := range nm.Tris {
+					v.Tris = append(v.Tris, [3]model3d.Coord3D{t[rot], t[(rot+1)%3], t[(rot+2)%3]})
+				}
+				ms = append(ms, v)
+			}
+		}
 		ev.Parallel(len(ms), 16, func(i int) { checkMeshSDF(r, ms[i], n) })
+		checkSingleTriangles(r, (n+1)/2)
 		m2 := cat.Closed2()
 		ev.Parallel(len(m2), 16, func(i int) { checkMeshSDF2(r, m2[i], 3*n) })
 	})
